@@ -99,3 +99,17 @@ MUTANTS += [
              "      for i in range(i0, min(i0 + 4096, len(acc) - 1)):\n" + _BODY,
          why="correct time-blocked loop: must not raise an alarm"),
 ]
+
+# ---- survivors reported by the audit of C01 (notes/audit/C01.md section 5)
+MUTANTS += [
+    dict(id="c01-a-s1-negate-in-record-dtype", prop="C01", file="eqsig/sdof.py",
+         old="    acc = -np.array(acc, dtype=float)\n", new="    acc = np.negative(acc).astype(float)\n",
+         why="audit S1: the sign flip happens in the record's dtype - unsigned and most-negative integer samples wrap around"),
+    dict(id="c01-a-s2-zero-only-period-list", prop="C01", file="eqsig/sdof.py", old=_W,
+         new=_W + "    if w.size == 0:  # no oscillators\n        z = np.zeros([len(periods), len(acc)])\n        return z, z.copy(), z.copy()\n",
+         why="audit S2: the period list [0] alone returns a zero acceleration row instead of the sign-flipped record"),
+    dict(id="c01-a-s3-tiny-period-rigid", prop="C01", file="eqsig/sdof.py",
+         old="    if periods[0] == 0:\n        s = 1\n    else:\n        s = 0\n    w = 6.2831853 / periods[s:]\n",
+         new="    if periods[0] <= 1e-5:\n        s = 1\n    else:\n        s = 0\n    w = 6.2831853 / periods[s:]\n",
+         why="audit S3: a first period below 10 microseconds is treated as rigid (inside the quantifier for dt < 5e-5)"),
+]
